@@ -18,6 +18,11 @@ from ..plans import resolve_body, skeleton
 from .c08 import BAD_SCHEMAS, insert_bad
 
 
+def json_clone(x):
+    import json as _j
+    return _j.loads(_j.dumps(x))
+
+
 def is_census_item(s: dict, comps: dict) -> str | None:
     if not isinstance(s, dict) or "$ref" in s:
         return None
@@ -108,6 +113,24 @@ def main() -> int:
                     **({"plan": {"fn": "ops", "args": {"seed": i, "calls_per_op": 3, "import": False}}} if behavioural else {}))
         info[j["id"]] = (f"random:{i}", descs)
         jobs.append(j)
+    # deterministic: a valid component reached from a model that has a bad piece elsewhere - through a property, array items, tuple items, additional
+    # properties, a union member - before and after the bad property: the valid component keeps its class (or is named in a diagnostic)
+    Rf_ = lambda n_: {"$ref": f"#/components/schemas/{n_}"}  # noqa: E731
+    links_ = {"property": lambda t_: t_, "items": lambda t_: {"type": "array", "items": t_}, "tuple": lambda t_: {"type": "array", "prefixItems": [{"type": "string"}, t_]}, "additional": lambda t_: {"type": "object", "additionalProperties": t_},
+              "union": lambda t_: {"oneOf": [t_, {"type": "integer"}]}, "nullable": lambda t_: {"nullable": True, "allOf": [t_]}}
+    for lk_, mk_ in links_.items():
+        for tkind_, tsch_ in (("object", {"type": "object", "properties": {"sku": {"type": "string"}}}), ("enum", {"type": "string", "enum": ["zq_p", "zq_q"]})):
+            for bad_first_ in (False, True):
+                for bk_ in ("array_no_items", "dangling_ref"):
+                    bad_ = {"type": "array"} if bk_ == "array_no_items" else {"$ref": "#/components/schemas/ZqNoSuchThing"}
+                    props_ = [("good_link", mk_(Rf_("ZqItem"))), ("bad_piece", bad_)]
+                    dd_ = docs.base_doc("3.0.3", "Bystander")
+                    dd_["components"]["schemas"] = {"ZqShelf": {"type": "object", "properties": dict(props_[::-1] if bad_first_ else props_)}, "ZqItem": json_clone(tsch_),
+                                                    "ZqOther": {"type": "object", "properties": {"again": Rf_("ZqItem")}}}
+                    dd_["paths"] = {"/item": {"get": {"operationId": "get_item_zq", "responses": {"200": {"description": "ok", "content": {"application/json": {"schema": Rf_("ZqItem")}}}}}}}
+                    j = run.job(dd_, want=["manifest", "tree"], sandbox=[{"a": "getattr", "module": "models", "name": "__all__"}], cfg={"literal_enums": tkind_ == "enum" and bad_first_})
+                    info[j["id"]] = (f"bystander:{lk_}:{tkind_}:{bk_}:{int(bad_first_)}", [{"position": "bystander_of_bad_piece", "link": lk_}])
+                    jobs.append(j)
     for label_, d_ in docs.rare_feature_docs():
         for gat_ in (False, True):
             j = run.job(d_, want=["manifest", "tree"], sandbox=[{"a": "getattr", "module": "models", "name": "__all__"}], cfg={"generate_all_tags": gat_})
